@@ -11,13 +11,15 @@ step is replayed through BPF_PROG_TEST_RUN and compared.
 
 One explorer, two invariant sets: `run_for(ctx, "C22")` / `run_for(ctx, "C21")`.
 """
+import contextlib
 import hashlib
 import struct
 from collections import deque
 
-from mc import bpfvm, core, fastsim, kern
+from mc import bpfvm, core, ecparse, explore, fastsim, kern
 from ebpfcat.ebpfcat import (
-    Device, DeviceVar, EBPFTerminal, PacketDesc, TerminalVar)
+    Device, DeviceVar, EBPFTerminal, FastEtherCat, FastSyncGroup, PacketDesc,
+    TerminalVar)
 from ebpfcat.ethercat import SyncManager
 
 PROP = "C22"
@@ -34,6 +36,7 @@ TX, PASS = bpfvm.XDP_TX, bpfvm.XDP_PASS
 INDEX0 = 17                    # EtherXDP.INDEX0, raw-frame offset
 ETHERTYPE = 0x9abc             # what user space wants to see (data0)
 MARK, STALE = 0x5a5a, 0x1111
+WRITE_CMDS = (2, 3, 5, 6, 8, 9, 11, 12)
 MAXQ = 3
 NSAT = 3
 
@@ -86,8 +89,9 @@ def make_device(nout, nin):
     return type("StampDevice", (Device,), attrs)()
 
 
-def build_group(layout, kernel, seam):
-    ec = fastsim.new_ec()
+def make_devices(layout, ec):
+    """terminals and the stamping device of a layout, linked
+    -> (device, output terminals, input terminals)"""
     spec = LAYOUTS[layout]
     terms = [fastsim.fake_terminal(ec, _T, pos, insz, outsz, fm,
                                    in_off=0x1100 + 16 * n,
@@ -100,6 +104,12 @@ def build_group(layout, kernel, seam):
         setattr(dev, f"out{k}", t.o)
     for k, t in enumerate(ins):
         setattr(dev, f"in{k}", t.i)
+    return dev, outs, ins
+
+
+def build_group(layout, kernel, seam):
+    ec = fastsim.new_ec()
+    dev, outs, ins = make_devices(layout, ec)
     g = fastsim.FastGroup([dev], ec, kernel, index=GROUP_INDEX[layout],
                           seam=seam, ethertype=ETHERTYPE)
     g.dev = dev
@@ -139,6 +149,104 @@ def standalone_ok(layout):
     return os.WIFEXITED(status) and os.WEXITSTATUS(status) == 0
 
 
+def judge_pass(writers, out_pos, gsize, registered, werr0, mark, frame, obs):
+    """step-local invariants of one dispatcher pass of a frame of a group
+    -> list of (prop, name, expected, observed).
+
+    writers: [(command position, counter position, command, expected
+    counter)] and out_pos: output positions, all in the raw frame; gsize:
+    size of the group's packet; werr0: wkc_errors before the pass; mark:
+    what the device stamps into every output in this pass; obs: trap, ret,
+    frame (after), tail (did the dispatcher's tail call enter the group's
+    program), werr (after), runs (device program runs in this pass)."""
+    v = []
+    if obs["trap"] is not None:
+        v.append(("C22", "trap", "XDP action TX or PASS",
+                  "trap: " + obs["trap"]))
+        return v
+    won = werr0 != 0
+    ret, post, tail = obs["ret"], obs["frame"], obs["tail"]
+    if obs.get("random"):
+        main, alt, r2, _ = obs["random"]
+        v.append(("C22", "outcome depends on the random helper at drop "
+                  "rate 0", f"the same outcome for answers {main:#x} and "
+                  f"{alt:#x}", f"action {r2} with {alt:#x}"))
+    if ret not in (TX, PASS):
+        v.append(("C22", "frame dropped", "XDP action TX(3) or PASS(2)",
+                  f"action {ret}"))
+    if len(post) != len(frame):
+        v.append(("C22", "frame length changed", len(frame), len(post)))
+        return v
+    data0 = bytes(frame[26:28])
+    if not registered and ret == PASS and \
+            bytes(post[12:14]) != data0[::-1]:
+        v.append(("C22", "unregistered group: frame reaches user space "
+                  "with the wrong ethertype",
+                  data0[::-1].hex(), bytes(post[12:14]).hex()))
+    diff = {i for i in range(len(frame)) if frame[i] != post[i]}
+    # the loop index and the ethertype belong to the dispatcher (C22
+    # judges the ethertype); C21 is about everything else in the frame
+    allowed = {INDEX0, 12, 13}
+    processed = tail >= 1
+    enabled = processed and won and len(frame) >= gsize + fastsim.ETH
+    if enabled:
+        mism = 0
+        for n, (cp, wp, val, exp) in enumerate(writers):
+            allowed |= {cp, wp, wp + 1}
+            if post[cp] != val:
+                v.append(("C21", "write datagram not re-enabled",
+                          f"writer {n} command {val}", post[cp]))
+            w = struct.unpack_from("<H", post, wp)[0]
+            if w != 0:
+                v.append(("C21", "working counter not cleared",
+                          f"writer {n} counter 0", w))
+            if struct.unpack_from("<H", frame, wp)[0] != exp:
+                mism += 1
+        if (obs["werr"] - werr0) & 0xffffffff != mism:
+            v.append(("C21", "error count wrong",
+                      f"wkc_errors grows by {mism}",
+                      f"grew by {obs['werr'] - werr0}"))
+        for p in out_pos:
+            allowed |= {p, p + 1}
+            if struct.unpack_from("<H", post, p)[0] != mark:
+                v.append(("C21", "output not computed in this pass",
+                          hex(mark),
+                          hex(struct.unpack_from("<H", post, p)[0])))
+        if obs["runs"] != 1:
+            v.append(("C21", "device program did not run exactly once "
+                      "in an enabled pass", 1, obs["runs"]))
+    else:
+        if obs["werr"] != werr0:
+            v.append(("C21", "errors counted in a pass without enabled "
+                      "processing", werr0, obs["werr"]))
+    bad = sorted(diff - allowed)
+    if bad:
+        what = "re-activation" if enabled else \
+            "a pass that does not process the frame with output enabled"
+        v.append(("C21", f"{what} changed other frame bytes",
+                  "only " + ",".join(map(str, sorted(allowed))),
+                  dict(changed=bad[:8],
+                       values=[post[i] for i in bad[:8]])))
+    live = [post[cp] for cp, _, _, _ in writers]
+    if ret == TX and any(live):
+        if not processed:
+            v.append(("C21", "frame returned to the bus with enabled write "
+                      "datagrams without being processed in this pass",
+                      "all writer commands NOP, or group program ran",
+                      dict(commands=live, index=post[INDEX0])))
+        elif not won:
+            v.append(("C21", "frame returned to the bus with enabled write "
+                      "datagrams in a pass with output disabled",
+                      "all writer commands NOP, or the group program "
+                      "processed the frame with output enabled "
+                      "(wkc_errors != 0)",
+                      dict(commands=live, index=post[INDEX0],
+                           wkc_errors=werr0,
+                           outputs=[struct.unpack_from("<H", post, p)[0]
+                                    for p in out_pos])))
+    return v
+
+
 # ===================================================================== model
 class Model:
     """one (layout, registered) configuration; executes steps on bytecode"""
@@ -169,6 +277,7 @@ class Model:
         self.fresh = (0, tuple(0 for _ in self.writers),
                       tuple(w[3] for w in self.writers))
         self.nruns = 0
+        self.nvariants = 0
         self.cache = {}
         self.kernel_note = None
         self.rdisp = self.rgroup = None
@@ -236,6 +345,37 @@ class Model:
         out = [()]
         for d in doms:
             out = [o + (x,) for o in out for x in d]
+        return out
+
+    def wrong_counter_variants(self, fr):
+        """arriving frames that differ from `fr` in the counter of ONE
+        enabled write datagram (and one with all of them changed), set to a
+        wrong value that coincides with the expected one in its low bits:
+        expected + 0x100, expected | 0x8000, 0xff00 | expected, 0xffff,
+        plus expected + 1 and 0x80 | expected.  All of them are 'wrong'
+        answers: the step is executed and judged, the successor state is
+        that of any wrong answer (counter cleared, one more error), so they
+        do not multiply the state space -> [(writer or 'all', value, frame)]
+        """
+        idx, cmds, wkcs = fr
+        out = []
+        allw = list(wkcs)
+        for n, ((_, _, _, e), cmd) in enumerate(zip(self.writers, cmds)):
+            if cmd == 0:
+                continue
+            vals = []
+            for v in (e + 0x100, e | 0x8000, 0xff00 | e, 0xffff, e + 1,
+                      0x80 | e, e + 0x200):
+                v &= 0xffff
+                if v != e and v not in vals:
+                    vals.append(v)
+            for v in vals:
+                w = list(wkcs)
+                w[n] = v
+                out.append((n, v, (idx, cmds, tuple(w))))
+            allw[n] = (e + 0x100) & 0xffff
+        if sum(1 for c in cmds if c) > 1:
+            out.append(("all", None, (idx, cmds, tuple(allw))))
         return out
 
     def foreign_frame(self, kind):
@@ -340,87 +480,10 @@ class Model:
     # ------------------------------------------------------------ judging
     def judge_group_step(self, c, won, frame, obs):
         """step-local invariants -> list of (prop, name, expected, observed)"""
-        v = []
-        if obs["trap"] is not None:
-            v.append(("C22", "trap", "XDP action TX or PASS",
-                      "trap: " + obs["trap"]))
-            return v
-        ret, post, tail = obs["ret"], obs["frame"], obs["tail"]
-        if obs.get("random"):
-            main, alt, r2, _ = obs["random"]
-            v.append(("C22", "outcome depends on the random helper at drop "
-                      "rate 0", f"the same outcome for answers {main:#x} and "
-                      f"{alt:#x}", f"action {r2} with {alt:#x}"))
-        if ret not in (TX, PASS):
-            v.append(("C22", "frame dropped", "XDP action TX(3) or PASS(2)",
-                      f"action {ret}"))
-        if not self.registered and tail:
+        if not self.registered and obs["trap"] is None and obs["tail"]:
             raise Internal("tail call succeeded for an unregistered group")
-        if tail and ret != TX:
-            pass        # the group program may exit any way it likes
-        if len(post) != len(frame):
-            v.append(("C22", "frame length changed", len(frame), len(post)))
-            return v
-        data0 = bytes(frame[26:28])
-        if not self.registered and ret == PASS and \
-                bytes(post[12:14]) != data0[::-1]:
-            v.append(("C22", "unregistered group: frame reaches user space "
-                      "with the wrong ethertype",
-                      data0[::-1].hex(), bytes(post[12:14]).hex()))
-        diff = {i for i in range(len(frame)) if frame[i] != post[i]}
-        # the loop index and the ethertype belong to the dispatcher (C22
-        # judges the ethertype); C21 is about everything else in the frame
-        allowed = {INDEX0, 12, 13}
-        processed = tail >= 1
-        enabled = processed and won and \
-            len(frame) >= self.group.size + fastsim.ETH
-        werr0 = 1 if won else 0
-        if enabled:
-            mism = 0
-            for n, (cp, wp, val, exp) in enumerate(self.writers):
-                allowed |= {cp, wp, wp + 1}
-                if post[cp] != val:
-                    v.append(("C21", "write datagram not re-enabled",
-                              f"writer {n} command {val}", post[cp]))
-                w = struct.unpack_from("<H", post, wp)[0]
-                if w != 0:
-                    v.append(("C21", "working counter not cleared",
-                              f"writer {n} counter 0", w))
-                if struct.unpack_from("<H", frame, wp)[0] != exp:
-                    mism += 1
-            if obs["werr"] - werr0 != mism:
-                v.append(("C21", "error count wrong",
-                          f"wkc_errors grows by {mism}",
-                          f"grew by {obs['werr'] - werr0}"))
-            for p in self.group.out_pos:
-                allowed |= {p, p + 1}
-                if struct.unpack_from("<H", post, p)[0] != MARK:
-                    v.append(("C21", "output not computed in this pass",
-                              hex(MARK),
-                              hex(struct.unpack_from("<H", post, p)[0])))
-            if obs["runs"] != 1:
-                v.append(("C21", "device program did not run exactly once "
-                          "in an enabled pass", 1, obs["runs"]))
-        else:
-            if obs["werr"] != werr0:
-                v.append(("C21", "errors counted in a pass without enabled "
-                          "processing", werr0, obs["werr"]))
-        bad = sorted(diff - allowed)
-        if bad:
-            what = "re-activation" if enabled else \
-                "a pass that does not process the frame with output enabled"
-            v.append(("C21", f"{what} changed other frame bytes",
-                      "only " + ",".join(map(str, sorted(allowed))),
-                      dict(changed=bad[:8],
-                           values=[post[i] for i in bad[:8]])))
-        if ret == TX and not processed and \
-                any(post[cp] != 0 for cp, _, _, _ in self.writers):
-            v.append(("C21", "frame returned to the bus with enabled write "
-                      "datagrams without being processed in this pass",
-                      "all writer commands NOP, or group program ran",
-                      dict(commands=[post[cp] for cp, _, _, _
-                                     in self.writers], index=post[INDEX0])))
-        return v
+        return judge_pass(self.writers, self.group.out_pos, self.group.size,
+                          self.registered, 1 if won else 0, MARK, frame, obs)
 
     def judge_foreign(self, kind, frame, obs, c):
         v = []
@@ -474,6 +537,24 @@ class Model:
         if obs["other"]:
             viol.append(("C22", "dispatcher wrote outside the group's loop "
                          "counter", "untouched", "other map bytes changed"))
+        # the same step with wrong counters that look right in their low
+        # bits (judged, not explored further: see wrong_counter_variants)
+        if obs["trap"] is None and any(fr[1]):
+            for n, val, vfr in self.wrong_counter_variants(fr):
+                vframe = self.frame_bytes(vfr)
+                vobs = self.execute(c, won, vframe)
+                self.nvariants += 1
+                for pv in self.judge_group_step(c, won, vframe, vobs):
+                    name = pv[1] + " [working counter that equals the " \
+                        "expected one in its low bits]"
+                    if pv[0] != "C21" or any(name == x[1] for x in viol):
+                        continue
+                    what = "all writers" if n == "all" else \
+                        f"writer {n} returned {val:#06x}"
+                    viol.append((pv[0], name, pv[2],
+                                 dict(observed=pv[3], counters=what,
+                                      arriving=list(vfr[2]))))
+                    break
         ret = obs["ret"]
         nf = None
         if ret == TX and len(obs["frame"]) == len(frame):
@@ -892,6 +973,7 @@ def work(item, res):
         res.count("vm_runs", m.nruns)
         res.count("traces_validated_against_impl", m.nruns)
         res.count("kernel_validated", m.kernel_checked)
+        res.count("wrong_counter_variant_steps", m.nvariants)
         byk = {}
         for s in r["states"]:
             byk[K - s[2]] = byk.get(K - s[2], 0) + 1
@@ -1017,6 +1099,566 @@ def run_for(ctx, prop):
 
 def run(ctx):
     return run_for(ctx, PROP)
+
+
+# ===================================================================== life cycle
+# User space and kernel together: the real FastSyncGroup.run (with
+# SyncGroupBase.run, update_devices, EtherCat.roundtrip_packet /
+# datagram_received) of one or several masters runs on the virtual loop, the
+# real FastEtherCat.register_sync_group edits the program table in the
+# simulated kernel, and every frame that user space sends really circulates:
+# each bus pass executes the real dispatcher bytecode and, through its tail
+# call, whatever program sits in the table.  The explorer owns the order of
+# bus passes and timers, losses, wrong working counters, the moment run() is
+# cancelled or told to stop, and the random group numbers.
+LIFE_ETHERTYPES = (ETHERTYPE, 0x3412, 0x4321)
+LIFE_TAIL = 14          # default steps after the last possible deviation
+LIFE_ROUNDS = 2         # default schedule: bus rounds per timer tick
+AL_TICK = 0.001
+AL_TICKS = {"OPERATIONAL": 1, "SAFE_OPERATIONAL": 2}
+LIFE_WRONG = (0, 0x100, 0x8000, 0xffff)    # wrong counters: 0, e+0x100, ...
+SLOT_DOMAIN = (5, 63, 9)
+
+
+def _life_wrong_value(expected, k):
+    base = LIFE_WRONG[k % len(LIFE_WRONG)]
+    v = 0 if base == 0 else (expected + base) & 0xffff if base == 0x100 \
+        else (expected | base) & 0xffff
+    return v if v != expected else (expected + 1) & 0xffff
+
+
+class LifeGroup:
+    """the harness's record of one fast sync group"""
+
+    def __init__(self, world, mi, k, layout):
+        self.world = world
+        self.mi, self.k, self.layout = mi, k, layout
+        self.name = f"m{mi}g{k}"
+        self.ec = world.masters[mi]
+        self.dev, self.outs, self.ins = make_devices(layout, self.ec)
+        self.sg = FastSyncGroup(self.ec, [self.dev])
+        self.task = None
+        self.index = None
+        self.registered = False       # between the two halves of
+        #                               register_sync_group, as tracked here
+        self.map_fd = None
+        self.writers = self.out_pos = self.gsize = None
+        self.noprog = 0
+        self.over3 = False
+        self.operational = False      # wkc_errors was seen non-zero
+        self.stopped = None           # "cancel" / "running=False"
+        self.last_ran = -1            # step of the last run of its program
+        self.runs_total = 0
+        self.teardown_passes = 0
+        for t in self.sg.terminals:
+            # the state machine and the FMMU set-up are C14's and C20's;
+            # a state change takes some bus cycles to be acknowledged
+            t.to_operational = self._to_operational
+            t.set_state = self._set_state
+            t.map_fmmu = _life_no_fmmu
+
+    async def _to_operational(self, target=None):
+        return None
+
+    async def _set_state(self, state):
+        import asyncio
+        for _ in range(AL_TICKS.get(state.name, 1)):
+            await asyncio.sleep(AL_TICK)
+        self.world.note(f"{self.name}: terminals acknowledge {state.name}")
+
+    # -- the group's variables in its map
+    def _var(self, name, fmt, value=None):
+        area = self.sg.properties
+        off = self.dev.__dict__[name]
+        if value is None:
+            return struct.unpack_from("<" + fmt, area, off)[0]
+        struct.pack_into("<" + fmt, area, off, value)
+
+    def werr(self):
+        return struct.unpack_from("<I", self.sg.properties,
+                                  self.sg.__dict__["wkc_errors"])[0]
+
+    def on_registered(self, index):
+        w = self.world
+        sg = self.sg
+        self.index = index
+        self.registered = True
+        self.noprog = 0
+        self.map_fd = w.bpf.map_fd_of(sg.properties)
+        if self.map_fd is None:
+            raise Internal("the group's variables are not in the simulated "
+                           "kernel")
+        assembled = bytes(sg.packet.assemble(index, self.ec.ethertype))
+        self.writers = [(c + fastsim.ETH, p + fastsim.ETH, v, e)
+                        for c, p, v, e in fastsim.writers_of(sg, assembled)]
+        self.out_pos = [sg.pdo_assign[t][SyncManager.OUT] + fastsim.ETH
+                        for t in self.outs]
+        self.gsize = sg.packet.size
+        w.note(f"{self.name}: registered as group {index}")
+
+    def owns(self, pid):
+        ent = self.world.bpf.loaded.get(pid)
+        return ent is not None and self.map_fd in ent["maps"]
+
+
+@contextlib.asynccontextmanager
+async def _life_no_fmmu(*a, **kw):
+    yield 0
+
+
+class LifeTransport:
+    def __init__(self, world, mi):
+        self.world, self.mi = world, mi
+
+    def sendto(self, data, addr=None):
+        self.world.sent(self.mi, bytes(data))
+
+
+class Life:
+    """one execution.  cfg: dict(masters=[[layout, ...], ...], counter0=int,
+    horizon=int, script={step: [(action, master, group)]}, alphabet=str of
+    event letters the explorer may deviate with, domain=[slot numbers])"""
+
+    def __init__(self, ch, cfg):
+        self.ch, self.cfg = ch, cfg
+        self.viol = []            # (prop, name, expected, observed, step)
+        self.seen = set()
+        self.log = []
+        self.wire = []
+        self.round_left = 0
+        self.stepno = 0
+        self.stats = dict(passes=0, enabled=0, handed_up=0, lost=0,
+                          teardown_passes=0, wrong=0, dropped_up=0,
+                          collisions=0, timeouts=0)
+        self.outcomes = set()
+        self.nrand = 0
+
+    def note(self, text):
+        self.log.append(f"[{self.stepno}] {text}")
+
+    def violation(self, prop, name, expected, observed):
+        if (prop, name) not in self.seen:
+            self.seen.add((prop, name))
+            self.viol.append((prop, name, expected, observed, self.stepno))
+            self.note(f"VIOLATION {prop}: {name}")
+
+    # ------------------------------------------------------------ set-up
+    def run(self):
+        import asyncio
+        import contextlib as _cl
+        import ebpfcat.ebpfcat as E
+        import ebpfcat.ethercat as EC
+        from mc import seams, vloop
+        cfg = self.cfg
+        fastsim.reset_globals()
+        self.kernel = bpfvm.Kernel()
+        self.bpf = fastsim.SimBpf(self.kernel)
+        self.loop = vloop.VLoop()
+        handlers = dict(randrange=self._randrange, randint=self._randint)
+        saved_mono = E.monotonic
+        with _cl.ExitStack() as stack:
+            stack.enter_context(self.loop)
+            stack.enter_context(self.bpf)
+            stack.enter_context(seams.own_random([E, EC], handlers))
+            E.monotonic = self.loop.time
+            stack.callback(setattr, E, "monotonic", saved_mono)
+            # as FastEtherCat.connect does
+            self.programs = E.create_map(E.MapType.PROG_ARRAY, 4, 4,
+                                         FastEtherCat.MAX_PROGS)
+            self.disp, note = fastsim.build_dispatcher(self.kernel,
+                                                       self.programs)
+            if note is not None:
+                raise Internal("life cycle: dispatcher not generated: "
+                               + note)
+            self.table = self.kernel.maps[self.programs]
+            self.masters = []
+            for mi in range(len(cfg["masters"])):
+                ec = FastEtherCat(f"sim{mi}")
+                ec.ethertype = LIFE_ETHERTYPES[mi]
+                ec.programs = self.programs
+                ec.send_queue = asyncio.Queue()
+                ec.transport = LifeTransport(self, mi)
+                ec.register_sync_group = self._tracked(
+                    ec, ec.register_sync_group)
+                self.masters.append(ec)
+            self.groups = []
+            self.by_sg = {}
+            for mi, layouts in enumerate(cfg["masters"]):
+                for k, layout in enumerate(layouts):
+                    self.groups.append(LifeGroup(self, mi, k, layout))
+                    self.by_sg[id(self.groups[-1].sg)] = self.groups[-1]
+            for gi in range(fastsim.MAX_PROGS):
+                self.disp.set_counter(gi, cfg.get("counter0", 0))
+            try:
+                self._drive()
+            finally:
+                for g in self.groups:
+                    if g.task is not None:
+                        g.task.cancel()
+                try:
+                    self.loop.run_until_idle()
+                finally:
+                    self.loop.shutdown()
+                    self.loop.run_until_idle()
+        return self.observation()
+
+    def _tracked(self, ec, real):
+        world = self
+
+        @contextlib.contextmanager
+        def register_sync_group(sg):
+            g = world.by_sg[id(sg)]
+            with real(sg) as index:
+                g.on_registered(index)
+                try:
+                    yield index
+                finally:
+                    # from here on the group unregisters itself
+                    g.registered = False
+                    world.note(f"{g.name}: unregisters (group {index})")
+        return register_sync_group
+
+    # ------------------------------------------------------------ randomness
+    def _randrange(self, start, stop=None, step=1):
+        if stop is None:
+            start, stop = 0, start
+        if (start, stop, step) != (0, FastEtherCat.MAX_PROGS, 1):
+            # not the group number: answered deterministically
+            return range(start, stop, step)[0]
+        dom = list(self.cfg.get("domain") or SLOT_DOMAIN)
+        self.nrand += 1
+        taken = set(self.table.progs)
+        free = [x for x in dom if x not in taken]
+        if self._rand_tries >= 2 and free:
+            # after two colliding answers the source hits a free number
+            return free[0]
+        self._rand_tries += 1
+        i = self.ch.choose(len(dom), "randrange", [0] * len(dom))
+        if dom[i] in taken:
+            self.stats["collisions"] += 1
+        return dom[i]
+
+    _rand_tries = 0
+
+    def _randint(self, a, b):
+        self._ri = getattr(self, "_ri", 0) + 1
+        return a + self._ri
+
+    # ------------------------------------------------------------ the bus
+    def sent(self, mi, data):
+        """user space hands a frame to the network"""
+        ec = self.masters[mi]
+        try:
+            _, dgs = ecparse.parse(data)
+        except ecparse.ParseError as e:
+            self.violation("C22", "user space sent a malformed frame",
+                           "a well-formed frame", str(e))
+            dgs = []
+        index = struct.unpack_from("<I", data, 4)[0] if len(data) >= 8 \
+            else None
+        g = next((g for g in self.groups
+                  if g.mi == mi and g.index == index
+                  and (g.registered or g.task is not None)), None)
+        if g is not None and dgs:
+            live = [d.cmd for d in dgs[1:] if d.cmd in WRITE_CMDS]
+            if live:
+                self.violation(
+                    "C21", "user space: frame left with enabled write "
+                    "datagrams", "all write datagrams disabled (NOP) in a "
+                    "frame leaving user space",
+                    dict(group=g.name, enabled_commands=live,
+                         loop_index=data[3], frame=data.hex()[:80]))
+        raw = fastsim.ETH_HEADER[:12] + b"\x88\xa4" + data
+        self.wire.append(raw)
+        self.round_left += LIFE_ROUNDS
+        self.note(f"m{mi} sends a frame (group {index}, loop index "
+                  f"{data[3] if len(data) > 3 else None})")
+
+    def owner(self, frame):
+        if len(frame) < 30 or frame[12:14] != b"\x88\xa4" or frame[16] != 0:
+            return None
+        index = struct.unpack_from("<I", frame, 18)[0]
+        et = struct.unpack_from("<H", frame, 26)[0]
+        cands = [g for g in self.groups
+                 if g.index == index and g.ec.ethertype == et]
+        reg = [g for g in cands if g.registered]
+        return (reg or cands or [None])[-1]
+
+    def deliver(self, wrong=False):
+        frame = bytearray(self.wire.pop(0))
+        g = self.owner(frame)
+        self.stats["passes"] += 1
+        if g is None:
+            # nobody's frame (cannot happen: only groups send): let the
+            # dispatcher have it, judge nothing but the action
+            ret, vm = fastsim.run_vm(self.kernel, self.disp.insns, frame,
+                                     0x12345678)
+            if ret == TX:
+                self.wire.append(bytes(frame))
+            return
+        # the frame has passed the terminals
+        for n, (cp, wp, val, exp) in enumerate(g.writers):
+            if frame[cp] != 0:
+                w = struct.unpack_from("<H", frame, wp)[0]
+                inc = exp
+                if wrong:
+                    inc = _life_wrong_value(exp, self.stepno + n)
+                struct.pack_into("<H", frame, wp, (w + inc) & 0xffff)
+        if wrong:
+            self.stats["wrong"] += 1
+        pre = bytes(frame)
+        index = g.index
+        slot = self.table.progs.get(index)
+        own = slot is not None and g.owns(slot)
+        werr0 = g.werr()
+        runs0 = g._var("runs", "I")
+        mark = (MARK ^ (self.stats["passes"] * 0x0101)) & 0xffff or MARK
+        g._var("marker", "H", mark)
+        c0 = self.disp.get_counter(index)
+        obs = dict(trap=None)
+        try:
+            ret, vm = fastsim.run_vm(self.kernel, self.disp.insns, frame,
+                                     (0, 0xffff, 0x10000, 0x12345678)[
+                                         self.stats["passes"] % 4])
+            obs.update(ret=ret, tail=vm.tail_calls)
+        except bpfvm.Trap as t:
+            obs.update(ret=None, tail=0, trap=str(t))
+        ran_own = bool(obs["tail"]) and own
+        obs.update(frame=bytes(frame), werr=g.werr(),
+                   runs=(g._var("runs", "I") - runs0) & 0xffffffff)
+        if obs["tail"] and not own:
+            # somebody else's program handled the frame: for this group
+            # the pass did not run its program
+            obs["tail"] = 0
+        was_reg = g.registered
+        for pv in judge_pass(g.writers, g.out_pos, g.gsize, was_reg, werr0,
+                             mark, pre, obs):
+            self.violation(*pv)
+        if werr0:
+            g.operational = True
+        if ran_own:
+            g.last_ran = self.stepno
+            g.runs_total += 1
+            if werr0:
+                self.stats["enabled"] += 1
+        if g.stopped and was_reg:
+            g.teardown_passes += 1
+            self.stats["teardown_passes"] += 1
+        disp_ = "trap" if obs["trap"] else \
+            ("PASS" if obs["ret"] == PASS else
+             ("TX-active" if ran_own else "TX-passive")
+             if obs["ret"] == TX else f"ret={obs['ret']}")
+        self.outcomes.add((was_reg, disp_, bool(werr0),
+                           any(frame[cp] for cp, _, _, _ in g.writers)))
+        self.note(f"bus pass: frame of {g.name} index {pre[INDEX0]} "
+                  f"counter {c0 & 0xff} -> {disp_} index {frame[INDEX0]}"
+                  f"{' (wrong working counter)' if wrong else ''}"
+                  f"{'' if was_reg else ' (not registered)'}")
+        inflight = 1 + sum(1 for f in self.wire if self.owner(f) is g)
+        if inflight > MAXQ:
+            # outside the statement's precondition (at most three frames of
+            # a group in flight): the starvation bound is not judged for
+            # the rest of this history
+            g.over3 = True
+        if was_reg:
+            if ran_own:
+                g.noprog = 0
+            else:
+                g.noprog += 1
+                if g.noprog > 2 and not g.over3:
+                    self.violation(
+                        "C22", "life cycle: more than two consecutive "
+                        "frames of a registered group pass without running "
+                        "its program", "at most 2 consecutive passes "
+                        "without the group's own program",
+                        dict(group=g.name, index=index,
+                             consecutive=g.noprog, last=disp_,
+                             slot_holds_own_program=own))
+        if obs["trap"] is not None:
+            return
+        if obs["ret"] == TX:
+            self.wire.append(bytes(frame))
+        elif obs["ret"] == PASS:
+            et = struct.unpack_from("!H", frame, 12)[0]
+            tgt = [ec for ec in self.masters if ec.ethertype == et]
+            if tgt:
+                self.stats["handed_up"] += 1
+                self.loop.call_soon(tgt[0].datagram_received,
+                                    bytes(frame[fastsim.ETH:]), None)
+            else:
+                self.stats["dropped_up"] += 1
+
+    def check_table(self):
+        for g in self.groups:
+            if not g.registered:
+                continue
+            slot = self.table.progs.get(g.index)
+            if slot is None or not g.owns(slot):
+                other = [o.name for o in self.groups
+                         if o is not g and slot is not None and o.map_fd
+                         is not None and o.owns(slot)]
+                self.violation(
+                    "C22", "life cycle: the table slot of a registered "
+                    "group does not hold its own program",
+                    "a registered group's slot holds its program until the "
+                    "group unregisters itself",
+                    dict(group=g.name, index=g.index,
+                         slot="empty" if slot is None else
+                         f"program of {other[0] if other else 'nobody'}",
+                         table={k: v for k, v in
+                                sorted(self.table.progs.items())}))
+        # nobody's entries: slots that hold a program although no group of
+        # that number is registered are not judged here (C24)
+
+    # ------------------------------------------------------------ driving
+    def _options(self):
+        """[(event, cost)], the default first"""
+        cfg = self.cfg
+        alpha = cfg.get("alphabet", "")
+        timer = self.loop.next_timer() is not None
+        opts = []
+        if self.wire and (self.round_left > 0 or not timer):
+            opts.append(("D", 0))
+            if timer and "T" in alpha:
+                opts.append(("T", 1))
+        elif timer:
+            opts.append(("T", 0))
+            if self.wire and "D" in alpha:
+                opts.append(("D", 1))
+        else:
+            return []
+        if self.stepno >= cfg["horizon"]:
+            return opts[:1]
+        if self.wire:
+            if "L" in alpha:
+                opts.append(("L", 1))
+                if len(self.wire) > 1:
+                    opts.append(("LL", 1))
+            if "W" in alpha:
+                g = self.owner(self.wire[0])
+                if g is not None and any(self.wire[0][cp]
+                                         for cp, _, _, _ in g.writers):
+                    opts.append(("W", 1))
+        for gi, g in enumerate(self.groups):
+            if g.stopped is None and g.task is not None \
+                    and not g.task.done() and g.operational \
+                    and g.werr() != 0:
+                if "C" in alpha:
+                    opts.append((("C", gi), 1))
+                if "R" in alpha:
+                    opts.append((("R", gi), 1))
+        return opts
+
+    def _apply(self, ev):
+        if ev == "D":
+            self.round_left = max(0, self.round_left - 1)
+            self.deliver()
+        elif ev == "W":
+            self.round_left = max(0, self.round_left - 1)
+            self.deliver(wrong=True)
+        elif ev == "T":
+            if not self.loop.advance():
+                raise Internal("no timer to advance to")
+            self.note("time passes")
+            self.pending_round = True
+        elif ev == "L":
+            self.wire.pop(0)
+            self.round_left = max(0, self.round_left - 1)
+            self.stats["lost"] += 1
+            self.note("the oldest frame is lost")
+        elif ev == "LL":
+            self.stats["lost"] += len(self.wire)
+            self.wire[:] = []
+            self.round_left = 0
+            self.note("all frames in flight are lost")
+        elif ev[0] == "C":
+            g = self.groups[ev[1]]
+            g.stopped = "cancel"
+            g.task.cancel()
+            self.note(f"{g.name}: run() is cancelled")
+        elif ev[0] == "R":
+            g = self.groups[ev[1]]
+            g.stopped = "running=False"
+            g.sg.running = False
+            self.note(f"{g.name}: running = False")
+        else:
+            raise Internal(f"unknown event {ev!r}")
+
+    pending_round = False
+
+    def _script(self):
+        for action, mi, k in self.cfg.get("script", {}).get(self.stepno, ()):
+            gs = [g for g in self.groups if g.mi == mi and
+                  (k is None or g.k == k)]
+            for g in gs:
+                if action == "start":
+                    self._rand_tries = 0
+                    g.task = g.sg.start()
+                    self.note(f"{g.name}: start()")
+                elif action == "cancel":
+                    # what FastEtherCat.run does when the master leaves
+                    if g.task is not None and not g.task.done():
+                        g.stopped = "cancel"
+                        g.sg.cancel()
+                        self.note(f"{g.name}: cancel()")
+                else:
+                    raise Internal(action)
+
+    def _drive(self):
+        cfg = self.cfg
+        end = cfg["horizon"] + LIFE_TAIL
+        while self.stepno < end:
+            self._script()
+            self.loop.run_until_idle()
+            if self.pending_round:
+                self.pending_round = False
+                self.round_left = LIFE_ROUNDS * len(self.wire)
+            self.check_table()
+            for g in self.groups:
+                if g.task is not None and g.task.done() \
+                        and not g.task.cancelled() and g.stopped is None:
+                    e = g.task.exception()
+                    self.violation(
+                        "C22", "life cycle: the sync group task ended",
+                        "the group keeps running until it is stopped",
+                        dict(group=g.name, error=repr(e)[:200]))
+                    g.stopped = "died"
+            opts = self._options()
+            if not opts:
+                break
+            i = self.ch.choose(len(opts), "step", [c for _, c in opts])
+            self._apply(opts[i][0])
+            self.stepno += 1
+        self.loop.run_until_idle()
+        self.check_table()
+        # C22, liveness part: after the last fault the group runs again
+        for g in self.groups:
+            if g.registered and g.stopped is None and g.task is not None \
+                    and not g.task.done() and self.stepno >= end \
+                    and g.last_ran < cfg["horizon"]:
+                self.violation(
+                    "C22", "life cycle: a registered group is not run again",
+                    f"the group's program runs within the last {LIFE_TAIL} "
+                    "steps of the fault-free continuation",
+                    dict(group=g.name, index=g.index, last_ran=g.last_ran,
+                         steps=self.stepno, in_flight=len(self.wire),
+                         runs=g.runs_total))
+
+    def observation(self):
+        return dict(viol=list(self.viol), stats=dict(self.stats),
+                    outcomes=set(self.outcomes), steps=self.stepno,
+                    log=list(self.log),
+                    groups=[dict(name=g.name, index=g.index,
+                                 runs=g.runs_total, stopped=g.stopped,
+                                 registered=g.registered, over3=g.over3,
+                                 missed=g.sg.missed_counter,
+                                 teardown_passes=g.teardown_passes,
+                                 done=g.task.done() if g.task else None)
+                            for g in self.groups])
+
+
+def life_execute(ch, cfg):
+    return Life(ch, cfg).run()
 
 
 # ===================================================================== replay
